@@ -91,6 +91,7 @@ type opSpec struct {
 	smart     bool
 	created   *contract
 	onSuccess func()
+	post      func(c *txCase) string
 }
 
 type prog struct {
@@ -464,7 +465,8 @@ func (p *prog) deployEmbedded(e *embType) *opSpec {
 	args, cls := p.mangle(args, "deployArgs")
 	att := attachments.CreateDeployContractAttachment(e.hash, nil, nil, args...)
 	payload, _ := att.ToBytes()
-	return &opSpec{sender: sender, typ: types.DeployContractTx, payload: payload, amount: p.deployAmount(sender), kind: e.name, op: "deploy", method: "deploy", argClass: cls, smart: cls == "typed", created: c}
+	return &opSpec{sender: sender, typ: types.DeployContractTx, payload: payload, amount: p.deployAmount(sender), kind: e.name, op: "deploy", method: "deploy", argClass: cls, smart: cls == "typed", created: c,
+		post: postOwnerIs(sender.Addr)}
 }
 
 func (p *prog) deployWasm(b *wasmBin) *opSpec {
@@ -562,7 +564,11 @@ func (p *prog) smartTimeLock(c *contract) *opSpec {
 	case 2, 3, 4, 5:
 		args := [][]byte{p.anyAddr("tlDest"), p.anyBig("tlAmount", p.transferAmounts(c)...)}
 		args, cls := p.mangle(args, "tlArgs")
-		return p.mkCall(c, p.ownerOr(c, "tlSender"), "transfer", p.payAmount("tlPay", c.owner), args, cls, true)
+		op := p.mkCall(c, p.ownerOr(c, "tlSender"), "transfer", p.payAmount("tlPay", c.owner), args, cls, true)
+		if len(args) >= 2 {
+			op.post = postReceived(args[0], args[1])
+		}
+		return op
 	case 6:
 		// drain everything so that a termination can pass the dust check
 		return p.mkCall(c, c.owner, "transfer", big.NewInt(0), [][]byte{c.owner.Addr.Bytes(), bal.Bytes()}, "typed", true)
@@ -594,6 +600,7 @@ func (p *prog) smartMultisig(c *contract) *opSpec {
 		op := p.mkCall(c, p.ownerOr(c, "msAddSender"), "add", p.payAmount("msAddPay", c.owner), args, cls, true)
 		if who != nil && cls == "typed" {
 			op.onSuccess = func() { c.voters[who.Idx] = true }
+			op.post = postStoreEquals("addr"+string(who.Addr.Bytes()), who.Addr.Bytes())
 		}
 		return op
 	}
@@ -668,7 +675,9 @@ func (p *prog) smartVoting(c *contract) *opSpec {
 	bal := p.balance(c.addr)
 	height := p.A.Head().Height() + 1
 	if p.chance("ovSide", 8) {
-		return p.mkCall(c, p.anySender("ovStakeSender"), "addStake", p.payAmount("ovStakePay", c.owner, sim.Dna(3), big.NewInt(1)), nil, "typed", true)
+		op := p.mkCall(c, p.anySender("ovStakeSender"), "addStake", p.payAmount("ovStakePay", c.owner, sim.Dna(3), big.NewInt(1)), nil, "typed", true)
+		op.post = postStakeGrewByAmount()
+		return op
 	}
 	switch st {
 	case 0: // pending
@@ -783,7 +792,11 @@ func (p *prog) smartOracleLock(c *contract) *opSpec {
 	if p.balance(c.addr).Sign() == 0 && p.chance("olFund", 50) {
 		return p.mkFund(c, sim.Dna(int64(rapid.IntRange(1, 100).Draw(p.t, "olFundDna"))))
 	}
-	switch rapid.IntRange(0, 9).Draw(p.t, "olStep") {
+	step := rapid.IntRange(0, 9).Draw(p.t, "olStep")
+	if p.cbyte(c, "isOracleVotingFinished") == 1 && step < 4 {
+		step = 4
+	}
+	switch step {
 	case 0, 1, 2, 3:
 		args, cls := p.mangle(nil, "olCheckArgs")
 		return p.mkCall(c, p.anySender("olCheckSender"), "checkOracleVoting", p.payAmount("olCheckPay", c.owner), args, cls, true)
@@ -803,11 +816,19 @@ func (p *prog) smartRefundableLock(c *contract) *opSpec {
 	height := p.A.Head().Height() + 1
 	switch st {
 	case 1:
-		if p.chance("rolDeposit", 45) {
+		depositOdds := 40
+		if len(p.cval(c, "sum")) == 0 {
+			depositOdds = 75 // nothing deposited yet
+		}
+		if p.chance("rolDeposit", depositOdds) {
 			a := p.anySender("rolDepositor")
 			pay := p.payAmount("rolDepositPay", a, minDeposit, new(big.Int).Add(minDeposit, sim.Dna(10)), new(big.Int).Mul(minDeposit, big.NewInt(3)), new(big.Int).Sub(minDeposit, big.NewInt(1)))
 			args, cls := p.mangle(nil, "rolDepositArgs")
-			return p.mkCall(c, a, "deposit", pay, args, cls, true)
+			op := p.mkCall(c, a, "deposit", pay, args, cls, true)
+			if pay != nil {
+				op.post = allOf(postBigCounterMoved("deposits"+string(a.Addr.Bytes()), pay, 1), postBigCounterMoved("sum", pay, 1))
+			}
+			return op
 		}
 		if c.ov != nil && !c.ov.dead && !p.votingFinished(c.ov) && p.chance("rolDriveVoting", 55) {
 			return p.smartVoting(c.ov)
@@ -879,7 +900,17 @@ func (p *prog) smartWasm(c *contract) *opSpec {
 		m = c.bin.methods[p.draw("wasmExport", len(c.bin.methods))]
 	}
 	args, cls := p.mangle(args, "wasmArgs")
-	return p.mkCall(c, a, m, p.payAmount("wasmPay", a, big.NewInt(0), big.NewInt(0), sim.Dna(2)), args, cls, true)
+	op := p.mkCall(c, a, m, p.payAmount("wasmPay", a, big.NewInt(0), big.NewInt(0), sim.Dna(2)), args, cls, true)
+	if cls == "typed" {
+		switch {
+		case c.bin.name == "sum_func" && m == "invoke":
+			op.post = postSum(args[0], args[1])
+		case c.bin.name == "erc20" && m == "transfer" && len(args[0]) == common.AddressLength && args[1] != nil && string(args[0]) != string(a.Addr.Bytes()):
+			amt := new(big.Int).SetBytes(args[1])
+			op.post = allOf(postBigCounterMoved("b:"+string(args[0]), amt, 1), postBigCounterMoved("b:"+string(a.Addr.Bytes()), amt, -1))
+		}
+	}
+	return op
 }
 
 func (p *prog) smartStep(c *contract) *opSpec {
